@@ -10,6 +10,8 @@
 //	         containers, extreme integers, NaN, invalid UTF-8, closed channel, ...), plus operators
 //	         and interpolation on all pairs of hostile values
 //	nesting  each bracketing / prefix construct nested 10 .. 10^6 deep
+//	slots    every statement/expression form as a template of slots x a few fillers per slot
+//	         (absent, doubled, wrong kind), alone and after a prelude defining the names used
 //
 // Each input goes through parser.Parse, Program.String, compiler.Compile, risor.Eval (short
 // deadline, virtual OS, no exec/network) and the Error()/FriendlyErrorMessage() of whatever error
@@ -312,6 +314,8 @@ func spaceByName(name string, thorough bool) space {
 		return hostileSpace(thorough)
 	case "edits":
 		return editSpace(thorough)
+	case "slots":
+		return slotSpace()
 	}
 	l := 3
 	if thorough {
@@ -325,7 +329,7 @@ func spaces(thorough bool) []space {
 	if thorough {
 		l = 4
 	}
-	return []space{nestingSpace(thorough), hostileSpace(thorough), editSpace(thorough), soupSpace(l)}
+	return []space{nestingSpace(thorough), hostileSpace(thorough), editSpace(thorough), slotSpace(), soupSpace(l)}
 }
 
 // ------------------------------------------------------------------ one input (runs in the worker)
@@ -577,7 +581,7 @@ func Check(r *ev.Run, replay string) {
 		sort.Strings(skipped)
 		r.Set("skipped_inputs", skipped)
 	}
-	r.Set("rule", "soup: every sequence of <= 3 (thorough 4) tokens over a 68-token alphabet; edits: every single-token deletion and duplication of every program of the function/container/error/closure families (every 6th program in quick); hostile: every default-global callable (exec, network modules and exit excluded) x hostile argument tuples (arity 0-2; thorough all pairs), every method name x hostile receiver x hostile argument, operators/interpolation/indexing on all pairs of 22 hostile values; nesting: 17 constructs nested 10..10^3 (thorough 10^6) deep. Every input runs parse, String, compile, Eval (15 ms deadline, virtual OS) and the error formatters in a worker child; distinct = worker batches completed")
+	r.Set("rule", "soup: every sequence of <= 3 (thorough 4) tokens over a 68-token alphabet; edits: every single-token deletion and duplication of every program of the function/container/error/closure families (every 6th program in quick); hostile: every default-global callable (exec, network modules and exit excluded) x hostile argument tuples (arity 0-2; thorough all pairs), every method name x hostile receiver x hostile argument, operators/interpolation/indexing on all pairs of 22 hostile values; nesting: 17 constructs nested 10..10^3 (thorough 10^6) deep; slots: 14 templates (for, if, switch, func, call, index/slice, assignment, import/from, go/defer, map, list, operators, jumps in and out of context, string escapes/interpolations) x every combination of 2-15 fillers per slot, each alone and after a prelude that defines the names. Every input runs parse, String, compile, Eval (15 ms deadline, virtual OS) and the error formatters in a worker child; distinct = worker batches completed")
 }
 
 var frameRe = regexp.MustCompile(`github.com/risor-io/risor/([a-zA-Z0-9_/]+)\.(\(\*?[A-Za-z0-9_]+\)\.)?([A-Za-z0-9_]+)`)
